@@ -22,6 +22,9 @@ type E1Spec struct {
 	Oracles  []string
 	AllJ     bool
 	NoMerge  bool
+	Level    string
+	HInit    string
+	HFlags   int
 }
 
 type E1Stats struct {
@@ -42,7 +45,7 @@ func ExploreE1(p *pool.Pool, spec E1Spec, rep *Report, deadline time.Time) E1Sta
 	// initial state
 	frontier := [][]ops.Op{}
 	{
-		job := &E1Job{Cfg: spec.Cfg, Setup: spec.Setup, Hist: nil, Oracles: spec.Oracles, AllJ: spec.AllJ}
+		job := &E1Job{Cfg: spec.Cfg, Setup: spec.Setup, Hist: nil, Oracles: spec.Oracles, AllJ: spec.AllJ, Level: spec.Level, HInit: spec.HInit, HFlags: spec.HFlags}
 		p.Map("e1", []interface{}{job}, func(i int, resp *pool.Response) {
 			st.Transitions++
 			if resp.Err != "" {
@@ -76,7 +79,7 @@ func ExploreE1(p *pool.Pool, spec E1Spec, rep *Report, deadline time.Time) E1Sta
 		for _, h := range frontier {
 			for _, op := range spec.Alphabet {
 				hist := append(append([]ops.Op{}, h...), op)
-				jobs = append(jobs, &E1Job{Cfg: spec.Cfg, Setup: spec.Setup, Hist: hist, Oracles: spec.Oracles, AllJ: spec.AllJ})
+				jobs = append(jobs, &E1Job{Cfg: spec.Cfg, Setup: spec.Setup, Hist: hist, Oracles: spec.Oracles, AllJ: spec.AllJ, Level: spec.Level, HInit: spec.HInit, HFlags: spec.HFlags})
 			}
 		}
 		next := [][]ops.Op{}
@@ -110,7 +113,9 @@ func ExploreE1(p *pool.Pool, spec E1Spec, rep *Report, deadline time.Time) E1Sta
 				st.Harness = append(st.Harness, ops.HistString(job.Hist)+": "+r.Harness)
 				return
 			}
-			st.Outcomes[job.Hist[len(job.Hist)-1].K+":"+errClass2(r.Outcome)]++
+			if spec.Level != "handle" {
+				st.Outcomes[job.Hist[len(job.Hist)-1].K+":"+errClass2(r.Outcome)]++
+			}
 			rep.Add("e1", job, r.Viol)
 			if r.Diverged {
 				st.Pruned++
